@@ -107,4 +107,14 @@ var props = map[string]propCfg{
 		NotDecided: []string{"the grammar-level clauses (if on one line or several, right-hand side on the same or the next line, a pipeline broken before |>, blank lines and comments between statements): they are placements of psSkipEOL in thirty parser functions and need a relational proof of the whole parser; NOT decided"},
 		Scans: []func(*run){scanColumnReaders},
 	},
+	"C11": {
+		Modules: []string{"fc", "pkg/frt"},
+		Decided: []string{
+			"\"...\" literals: the token ends at the first unescaped quote (backslash parity) and its value is exactly the bytes between the quotes, so the emitted Go literal is byte-identical to the Folang literal and Go's reading of the escapes is the documented one",
+			"`...` literals: the token ends at the first backtick and every character of the body is re-escaped for a Go interpreted literal (backslash, quote and newline escaped, every other byte itself)",
+			"$-literals: ParseSInterP translates the body piece by piece: \\{ and \\} to the brace, other escapes passed through, {name} to %s with the name appended to the variable list in order, % to %%, every other byte itself",
+			"emitters: a string literal is emitted as \" + body + \", an interpolated literal as frt.SInterP(\"format\", vars...); frt.SInterP / toS render arguments as the statement says (C14 contracts)",
+		},
+		NotDecided: []string{"that Go's string-literal syntax un-escapes what the raw-string re-escaping produces, and that fmt.Sprintf substitutes %s / %% as assumed: properties of Go, stated as assumptions, not proved", "a raw newline inside \"...\" (Go rejects the emitted literal): read as outside the literal alphabet of the statement"},
+	},
 }
